@@ -493,7 +493,7 @@ var (
 	evGaveUp   []string
 )
 
-var evDeadline = 20 * time.Second
+var evDeadline = 10 * time.Second
 
 func evWorkerStart() *evWorkerProc {
 	cmd := exec.Command(os.Args[0], "evalworker")
